@@ -463,6 +463,7 @@ func c16Mixed(r *engine.Run) {
 func c16Main(r *engine.Run) {
 	r.Rule = "structural shapes S(d,w) × 4 coordinate types (valid cell-lattice instantiation, every vertex tagged Z=1000+i, M=2000+i) and collections whose members were constructed with different coordinate types (all 4^n assignments, n ≤ 3): one coordinate type reported by every accessor; ForceCoordinatesType×4 / Force2D against a reference; Reverse, ForceCW/CCW, SnapToGrid, TransformXY, Densify, Dump, DumpCoordinates, DumpRings, Coordinates, AsMulti*, WKB/WKT keep type and carry each vertex's payload; Centroid, ConvexHull, PointOnSurface, Envelope, set operations return XY. non-trivial = non-XY shapes with an empty member or depth ≥ 2, and mixed-type constructions"
 	c16Mixed(r)
+	c16Ctors(r)
 	d, w := 2, 2
 	if r.Thorough() {
 		d, w = 3, 3
